@@ -2,12 +2,12 @@
    vsubseq via futf::classify) decide validity of the RESULT, given that the
    parent string is valid; validity is preserved by the string operations. *)
 From Coq Require Import List NArith Bool Lia Arith.
-From HV Require Import Base.Utf8 Tendril.Heap Tendril.TModel Tendril.TSpec Tendril.TUtf8 Tendril.TInv.
+From HV Require Import Base.Utf8 Tendril.Heap Tendril.TModel Tendril.TSpec Tendril.TUtf8 Tendril.TWtf8 Tendril.TInv.
 Import ListNotations.
 Local Open Scope N_scope.
 
 Lemma validate_fvalid f b : validate f b = fvalid f b.
-Proof. destruct f; reflexivity. Qed.
+Proof. destruct f; try reflexivity. apply wtf8_validate_ok. Qed.
 
 Lemma fvalid_utf8 b : fvalid FUtf8 b = uvalid b.
 Proof. reflexivity. Qed.
@@ -31,7 +31,8 @@ Lemma subseq_ok f x off len : fvalid_inv f x = true ->
 Proof.
   intros H. destruct f; try reflexivity.
   - apply utf8_subseq_ok. exact H.
-  - cbn [sub_ok]. rewrite ascii_slice by exact H. reflexivity.
+  - unfold sub_ok. rewrite ascii_slice by exact H. reflexivity.
+  - apply wtf8_subseq_ok. exact H.
 Qed.
 
 Lemma suffix_ok_eq f x n : fvalid_inv f x = true ->
@@ -39,7 +40,8 @@ Lemma suffix_ok_eq f x n : fvalid_inv f x = true ->
 Proof.
   intros H. destruct f; try reflexivity.
   - rewrite slice_to_end. apply utf8_suffix_ok. exact H.
-  - cbn [suffix_ok]. rewrite ascii_slice by exact H. reflexivity.
+  - unfold suffix_ok. rewrite ascii_slice by exact H. reflexivity.
+  - rewrite slice_to_end. apply wtf8_suffix_ok. exact H.
 Qed.
 
 Lemma prefix_ok_eq f x k : fvalid_inv f x = true ->
@@ -47,7 +49,8 @@ Lemma prefix_ok_eq f x k : fvalid_inv f x = true ->
 Proof.
   intros H. destruct f; try reflexivity.
   - rewrite slice_0. apply utf8_prefix_ok. exact H.
-  - cbn [prefix_ok]. rewrite ascii_slice by exact H. reflexivity.
+  - unfold prefix_ok. rewrite ascii_slice by exact H. reflexivity.
+  - rewrite slice_0. apply wtf8_prefix_ok. exact H.
 Qed.
 
 (* validity of results *)
@@ -64,18 +67,14 @@ Proof. destruct f; reflexivity. Qed.
 Lemma fvalid_inv_of f b : fvalid f b = true -> fvalid_inv f b = true.
 Proof. destruct f; auto. Qed.
 
-Definition pushed (f : fmt) (a b : list N) : list N :=
-  let '(dl, dr, ins) := fixup f a b in
-  firstn (N.to_nat (llen a - dl)) a ++ ins ++ skipn (N.to_nat dr) b.
-
 Lemma pushed_plain f a b : f <> FWtf8 -> pushed f a b = a ++ b.
 Proof.
   intros H. unfold pushed. destruct f; try congruence; cbn [fixup];
     rewrite N.sub_0_r; cbn [N.to_nat skipn app]; unfold llen; rewrite Nat2N.id, firstn_all; reflexivity.
 Qed.
 
-Lemma pushed_sconcat f a b : pushed f a b = sconcat f a b.
-Proof. destruct f; try (apply pushed_plain; discriminate). reflexivity. Qed.
+Lemma pushed_sconcat f a b : fvalid_inv f a = true -> fvalid f b = true -> pushed f a b = sconcat f a b.
+Proof. intros Ha Hb. destruct f; try (apply pushed_plain; discriminate). apply wtf8_pushed_sconcat; assumption. Qed.
 
 Lemma fvalid_app f a b : f <> FWtf8 -> fvalid f a = true -> fvalid f b = true -> fvalid f (a ++ b) = true.
 Proof.
@@ -89,6 +88,7 @@ Proof.
   intros Ha Hb. destruct f; try reflexivity.
   - rewrite pushed_plain by discriminate. apply fvalid_app; auto. discriminate.
   - rewrite pushed_plain by discriminate. apply fvalid_app; auto. discriminate.
+  - unfold fvalid_inv, fvalid in *. rewrite wtf8_pushed_sconcat by assumption. apply wtf8_sconcat_valid; assumption.
 Qed.
 
 Lemma encode_char_valid f c e : is_scalar c = true -> encode_char f c = Some e -> fvalid f e = true.
@@ -100,9 +100,9 @@ Proof.
   - destruct (0xFF <? c); [discriminate|]. intros [= <-]. reflexivity.
 Qed.
 
-Lemma upper_valid f x : fvalid_inv f x = true -> fvalid_inv f (map upper x) = true.
+Lemma upper_valid f x : f <> FWtf8 -> fvalid_inv f x = true -> fvalid_inv f (map upper x) = true.
 Proof.
-  destruct f; intros H; try reflexivity.
+  destruct f; intros Hf H; try reflexivity; try congruence.
   - apply uvalid_upper, H.
   - cbn [fvalid_inv fvalid] in *. rewrite forallb_forall in *. intros y Hy.
     apply in_map_iff in Hy. destruct Hy as [z [<- Hz]]. specialize (H z Hz).
